@@ -111,12 +111,13 @@ def runConcat (events : List (Bool × Int × List CRow)) : List (List Int) :=
 /-! ### Context layer -/
 
 inductive Err
-  | dupStrat | dupCat | emptyCats | unknownExcl | badBins | dupObs | missingStrat | unknownCat
+  | dupStrat | dupCat | emptyCats | unknownExcl | badBins | dupObs | missingStrat | unknownCat | missingCallable
 deriving Repr, DecidableEq
 
 def Err.name : Err → String
   | .dupStrat => "dupStrat" | .dupCat => "dupCat" | .emptyCats => "emptyCats" | .unknownExcl => "unknownExcl"
   | .badBins => "badBins" | .dupObs => "dupObs" | .missingStrat => "missingStrat" | .unknownCat => "unknownCat"
+  | .missingCallable => "missingCallable"
 
 /-- a registered `Stratification` -/
 structure Strat where
@@ -186,10 +187,14 @@ structure Ctx where
 deriving Repr
 
 /-- `ResultsContext.register_observation` after `ResultsManager.register_observation` resolved the
-stratifications -/
-def registerObservation (c : Ctx) (name phase : String) (kind : Kind) (additional excluded : List String) :
-    Except Err Ctx :=
-  if c.obs.any (fun o => o.name = name) then .error .dupObs
+stratifications.  `callablesOk = false`: a required callable (`results_updater` of
+`register_stratified_observation`, `results_gatherer` / `results_updater` of
+`register_unstratified_observation`) was left at its placeholder – refused by
+`ResultsInterface._check_for_required_callables` before anything else is looked at. -/
+def registerObservation (c : Ctx) (name phase : String) (kind : Kind) (additional excluded : List String)
+    (callablesOk : Bool := true) : Except Err Ctx :=
+  if !callablesOk then .error .missingCallable
+  else if c.obs.any (fun o => o.name = name) then .error .dupObs
   else
     let strats := match kind with
       | .adding => resolve c.defaults additional excluded
